@@ -168,3 +168,50 @@ pub fn dataset(max_rows: usize) -> impl Strategy<Value = Dataset> {
     (0u8..2, 0u8..4, 0u8..6, prop::collection::vec(qrow(), 4..max_rows), any::<bool>(), 0u8..2)
         .prop_map(|(ts_type, age, span_h, rows, custom_label, backend)| Dataset { ts_type, age, span_h, rows, custom_label, backend })
 }
+
+/// An object store whose every request takes one scheduler turn (a `yield_now` before it is
+/// served): each request is then a point at which a caller's future can be dropped, as it is when
+/// a client disconnects or a request times out.  Contents and answers are the inner store's.
+#[derive(Debug)]
+pub struct YieldStore(pub Arc<dyn ObjectStore>);
+
+impl std::fmt::Display for YieldStore {
+    fn fmt(&self, f: &mut std::fmt::Formatter<'_>) -> std::fmt::Result {
+        write!(f, "YieldStore({})", self.0)
+    }
+}
+
+#[async_trait::async_trait]
+impl ObjectStore for YieldStore {
+    async fn put_opts(&self, location: &object_store::path::Path, payload: object_store::PutPayload, opts: object_store::PutOptions) -> object_store::Result<object_store::PutResult> {
+        tokio::task::yield_now().await;
+        self.0.put_opts(location, payload, opts).await
+    }
+    async fn put_multipart_opts(&self, location: &object_store::path::Path, opts: object_store::PutMultipartOpts) -> object_store::Result<Box<dyn object_store::MultipartUpload>> {
+        tokio::task::yield_now().await;
+        self.0.put_multipart_opts(location, opts).await
+    }
+    async fn get_opts(&self, location: &object_store::path::Path, options: object_store::GetOptions) -> object_store::Result<object_store::GetResult> {
+        tokio::task::yield_now().await;
+        self.0.get_opts(location, options).await
+    }
+    async fn delete(&self, location: &object_store::path::Path) -> object_store::Result<()> {
+        tokio::task::yield_now().await;
+        self.0.delete(location).await
+    }
+    fn list(&self, prefix: Option<&object_store::path::Path>) -> futures::stream::BoxStream<'_, object_store::Result<object_store::ObjectMeta>> {
+        self.0.list(prefix)
+    }
+    async fn list_with_delimiter(&self, prefix: Option<&object_store::path::Path>) -> object_store::Result<object_store::ListResult> {
+        tokio::task::yield_now().await;
+        self.0.list_with_delimiter(prefix).await
+    }
+    async fn copy(&self, from: &object_store::path::Path, to: &object_store::path::Path) -> object_store::Result<()> {
+        tokio::task::yield_now().await;
+        self.0.copy(from, to).await
+    }
+    async fn copy_if_not_exists(&self, from: &object_store::path::Path, to: &object_store::path::Path) -> object_store::Result<()> {
+        tokio::task::yield_now().await;
+        self.0.copy_if_not_exists(from, to).await
+    }
+}
